@@ -396,7 +396,7 @@ def gen_ids(rng, n, p_have=0.4, lo=1, hi=60, special=None):
 
 def gen_world_model(rng, structured=None, use_cache="rand", nfiles=None, sizes=None, p_have=0.4, id_hi=60,
                     lock="rand", shapes=None, max_stmts=4, min_missing=1, special_ids=None, crlf_p=0.0, unicode_p=None,
-                    decoy_p=0.25, custom_macros_p=0.15, layout_p=0.1, heads_p=0.12, many=None, extra_keys_p=0.3, modes_p=0.15, mtimes_p=0.3, many_files=None, many_exact=False, yaml_style_p=0.3, high_ids_p=0.08, links_p=0.12):
+                    decoy_p=0.25, custom_macros_p=0.15, layout_p=0.1, heads_p=0.12, many=None, extra_keys_p=0.3, modes_p=0.15, mtimes_p=0.3, many_files=None, many_exact=False, yaml_style_p=0.3, high_ids_p=0.08, links_p=0.12, hardlinks_p=0.08):
     """A project with generated in-scope source files under proj/src (nested sometimes)."""
     if unicode_p is None:
         unicode_p = rng.choice([0.0, 0.0, 0.0, 0.3, 0.9])
@@ -509,6 +509,14 @@ def gen_world_model(rng, structured=None, use_cache="rand", nfiles=None, sizes=N
             d = sub_dirs[rng.randrange(len(sub_dirs))]
             wm["extra"]["proj/src/compat_%d" % rng.randrange(100)] = {"t": "l", "target": d[len("proj/src/"):]}
         wm["extra"]["proj/src/dangling.rs"] = {"t": "l", "target": "does/not/exist.rs"}
+    if files and rng.random() < hardlinks_p:
+        # a second (hard-linked) name of a source file under an out-of-scope name: a backup made with cp -al / rsync
+        # --link-dest, or an editor's .orig.  Replacing the source file by rename leaves that name alone; writing through
+        # the shared inode would not.
+        fl = sorted(files)
+        tgt = fl[rng.randrange(len(fl))]
+        wm["extra"][rng.choice([tgt + ".orig", "outside/snapshot/" + tgt.rsplit("/", 1)[1], "proj/backup_" + tgt.rsplit("/", 1)[1] + "~"])] = \
+            {"t": "h", "to": tgt}
     if rng.random() < mtimes_p:
         # file times all over the place: years old, in the future, older/newer than the lock - nothing may depend on them
         base = 1790000000
